@@ -511,6 +511,10 @@ def _battery(world, ids):
         if tname(a) != "Vector" and tname(b) != "Vector":
             out.append(("inter:%s,%s" % (i, j), call(G.intersection, a, b)))
             out.append(("in:%s,%s" % (i, j), call(lambda x, y: x in y, a, b)))
+        if tname(a) == tname(b) == "ConvexPolyhedron":
+            out.append(("parts:%s,%s" % (i, j), call(lambda x, y: [(f in y) is True for f in x.convex_polygons] + [(sg in y) is True for sg in sorted(x.segment_set, key=repr)], a, b)))
+        if tname(a) == tname(b) == "ConvexPolygon":
+            out.append(("parts:%s,%s" % (i, j), call(lambda x, y: [(sg in y) is True for sg in x.segments()], a, b)))
     return out
 
 
@@ -647,6 +651,29 @@ def execute(history, opts=None):
                     q = n1.split(":")[0]
                     ta = tname(world[ids[0]]["obj"]) if ids else "-"
                     ctx.vio(step, "J4", "%s/%s" % (q, ta), n1, "%s->%s" % (disc(r1), disc(r2)), {"before": detail(r1), "after": detail(r2), "config": [str(key[0]), key[1]]})
+                # J4b: the restored behaviour is that of objects which never saw the excursion:
+                # freshly built twins (same exact specs) must answer the battery like the
+                # survivors do now
+                tw = {}
+                for i in ids:
+                    if i in touched:
+                        continue
+                    o = call(build, world[i]["spec"])
+                    if not isinstance(o, Raised):
+                        tw[i] = {"obj": o}
+                twin_ans = dict(_battery(tw, [i for i in ids if i in tw]))
+                nb = 0
+                for n1, r2 in after:
+                    if n1 not in twin_ans or touched & set(n1.split(":", 1)[1].split(",")):
+                        continue
+                    ctx.count("J4_twin_checks")
+                    r3 = twin_ans[n1]
+                    if disc(r2) != disc(r3) or not same(r2, r3):
+                        nb += 1
+                        if nb <= 2:
+                            q = n1.split(":")[0]
+                            ta = tname(world[ids[0]]["obj"]) if ids else "-"
+                            ctx.vio(step, "J4", "twin/%s/%s" % (q, ta), n1, "%s->%s" % (disc(r3), disc(r2)), {"survivor": detail(r2), "fresh_twin": detail(r3), "config": [str(key[0]), key[1]]})
                 ctx.event(step, kind, "%d/%d" % (len(after) - len(bad), len(after)))
             else:
                 ctx.event(step, kind, "unknown-op")
